@@ -106,8 +106,8 @@ func GenTree(t *rapid.T, o TreeOpts) *Node {
 func genNode(t *rapid.T, o TreeOpts, depth int, budget *int, top bool) *Node {
 	*budget--
 	k := rapid.IntRange(0, 11).Draw(t, "kind")
-	if top && k < 7 && rapid.IntRange(0, 3).Draw(t, "topcontainer") > 0 {
-		k = 8 + k%4 // the root is a container three times out of four
+	if top && k < 7 && rapid.IntRange(0, 7).Draw(t, "topcontainer") > 0 {
+		k = 8 + k%4 // the root is a container seven times out of eight
 	}
 	if depth <= 0 || *budget <= 0 {
 		k = k % 7
@@ -118,7 +118,7 @@ func genNode(t *rapid.T, o TreeOpts, depth int, budget *int, top bool) *Node {
 	case k == 1:
 		return BoolNode(rapid.Bool().Draw(t, "bool"))
 	case k < 5:
-		if o.Overflow && rapid.IntRange(0, 24).Draw(t, "overflow") == 0 {
+		if o.Overflow && rapid.IntRange(0, 39).Draw(t, "overflow") == 0 {
 			return NumNode(math.Inf(rapid.SampledFrom([]int{1, -1}).Draw(t, "infsign")))
 		}
 		return NumNode(GenNumber(t))
